@@ -154,6 +154,11 @@ pub fn drive(d: &mut Driver)
 	d.phase("declaration/use/label/goto bodies", jobs);
 	d.bound("use forms", json!({"skeletons": USE_SKELETONS.iter().map(|s| s.0).collect::<Vec<_>>(), "forms": USE_FORMS.iter().map(|f| f.0).collect::<Vec<_>>()}));
 	d.phase("every form of use in every scoping skeleton", vec![json!({"use_forms": true})]);
+	// slice of the next size: every arrangement of two gotos, two labels, two declarations and
+	// one use in one block (seven statements; the thorough tier has all bodies of that size)
+	let jobs: Vec<Value> = (0..16).map(|k| json!({"overlap": k})).collect();
+	d.bound("seven-statement slice", json!("all arrangements of {goto A | if c goto A, goto B | if c goto B, var x, var y, A:, B:, use of x | use of y} in one block"));
+	d.phase("two gotos, two labels, two declarations, one use: all arrangements", jobs);
 	d.assume("model: engine/src/model/vars.rs — lexical scoping, the documented prune rule of docs/features.md, and an independent path analysis on the syntactic control-flow graph used one-directionally (accepted implies sound)");
 	d.assume("a variable name with a duplicate declaration is judged for E422 only; which declaration later uses bind to is not documented");
 }
@@ -239,6 +244,26 @@ fn use_forms(w: &mut WorkerCtx)
 
 pub fn work(spec: &Value, w: &mut WorkerCtx)
 {
+	if let Some(k) = spec.get("overlap").and_then(|k| k.as_u64())
+	{
+		// k selects plain / conditional gotos and the used variable and one of two halves
+		let goto_a = if k & 1 == 0 { 6u8 } else { 8 };
+		let goto_b = if k & 2 == 0 { 7u8 } else { 9 };
+		let used = if k & 4 == 0 { 2u8 } else { 3 };
+		let half = (k >> 3) & 1;
+		let atoms = [goto_a, goto_b, 0u8, 1, 4, 5, used];
+		for (pi, perm) in crate::util::permutations(7).into_iter().enumerate()
+		{
+			if pi as u64 % 2 != half
+			{
+				continue;
+			}
+			let forest: Vec<B> = perm.iter().map(|i| B::Atom(atoms[*i])).collect();
+			w.result.transitions += 1;
+			judge(0, &forest, w);
+		}
+		return;
+	}
 	if spec.get("use_forms").is_some() || spec.get("replay").map(|c| c.get("use_forms").is_some()).unwrap_or(false)
 	{
 		use_forms(w);
